@@ -580,6 +580,11 @@ def slice_(eng, st, base, lo, hi, step):
 
 def index_(eng, st, base, idx):
     """[(state, V|Raised)] — forks on IndexError / KeyError."""
+    h = eng.hooks.get("pre_index")
+    if h is not None:
+        r = h(eng, st, base, idx)
+        if r is not None:
+            return r
     o = heap_obj(st, base)
     if isinstance(base, VNoneT):
         return ok(st, eng.raise_py(st, TypeError, "'NoneType' object is not subscriptable"))
@@ -857,6 +862,11 @@ def getattr_(eng, st, v, name):
             if m is not None:
                 return m if getattr(m, "is_static", False) else VFunc("bound", func=m, selfv=v)
             raise Unsupported(f"attribute {name} of {getattr(o.cls, '__name__', o.cls)} instance (fields: {sorted(k for k in o.f)[:12]})")
+        h = eng.hooks.get("ref_getattr")
+        if h is not None:
+            r = h(eng, st, v, o, name)
+            if r is not None:
+                return r
     if isinstance(v, VClass):
         return class_attr(eng, st, v, name)
     if isinstance(v, VObj):
@@ -1349,6 +1359,8 @@ def sf_old(eng, n, st):
     base = st.labels[lbl] if lbl else st.old
     scratch = base.clone()
     scratch.pc = list(st.pc)
+    if scratch.old is None:
+        scratch.old = base          # old(old(e)) == old(e)
     # evaluate in the old heap but with the old function frame
     r = eng.ev(n.args[0], scratch)
     if len(r) != 1 or isinstance(r[0][1], Raised):
